@@ -32,7 +32,11 @@ def build_event(ev, ctx):
 
     k = ev["k"]
     if k == "resp":
-        return parse_message({"jsonrpc": "2.0", "id": _idval(ev["id"], ctx), "result": ev["p"]})
+        d = {"jsonrpc": "2.0", "id": _idval(ev["id"], ctx), "result": ev["p"]}
+        d.update(ev.get("extra") or {})
+        return parse_message(d)
+    if k == "progress_bare":
+        return parse_message({"jsonrpc": "2.0", "method": "notifications/progress"})
     if k == "err":
         err = {}
         if ev.get("code") is not None:
@@ -82,6 +86,8 @@ def resolved_event(ev, ctx):
         return {"k": "req", "id": mid(ev["id"]), "method": ev["method"]}
     if k == "notif":
         return {"k": "notif", "method": ev["method"]}
+    if k == "progress_bare":
+        return {"k": "progress", "token": None, "prog": None, "total": None, "message": None}
     if k == "progress":
         t = _tokval(ev.get("token"), ctx)
         return {"k": "progress", "token": None if t is None else ({"s": t} if isinstance(t, str) else {"i": t}),
